@@ -303,7 +303,7 @@ func instrumentFile(root, rel string) error {
 // instrumentScratch rewrites grpchan's own packages and the harness files of the
 // scratch copy for schedule-pinned replay.
 func instrumentScratch(root string) error {
-	dirs := []string{".", "internal", "inprocgrpc", "httpgrpc", "internal/zzfix"}
+	dirs := []string{".", "internal", "inprocgrpc", "httpgrpc", "internal/zzfix", "internal/zzcross"}
 	for _, d := range dirs {
 		ents, err := os.ReadDir(filepath.Join(root, d))
 		if err != nil {
